@@ -1783,6 +1783,100 @@ class Normaliser:
             ast.fix_missing_locations(node)
             return
 
+    def argmin_scans(self, node):
+        """best = None
+           for c in X:  if COND(c) and (best is None or K[c] < K[best]): best = c
+           if best is not None: BODY(best)
+        with K = {c: F(c) for c in X}: the FIRST element of X with COND and minimal F - what the first match in the stable `sorted(X, key=F)` is:
+           for c in sorted(X, key=F):  if COND(c): BODY(c); break
+        With `<=` the LAST minimal element is taken: the first match in `sorted(X[::-1], key=F)`."""
+        def process(block):
+            i = 0
+            while i + 2 < len(block) + 0 and i + 2 <= len(block) - 1:
+                s0, s1, s2 = block[i], block[i + 1], block[i + 2]
+                new = self._argmin_scan(node, s0, s1, s2, block[i + 3:])
+                if new is not None:
+                    block[i:i + 3] = [new]
+                    # the key table, when nothing reads it any more
+                    K = getattr(new, '_key_table', None)
+                    if K and not any(isinstance(n, ast.Name) and n.id == K and isinstance(n.ctx, ast.Load) for n in ast.walk(node)):
+                        for blk in [node.body] + [getattr(st, f) for st in ast.walk(node) for f in ('body', 'orelse') if isinstance(getattr(st, f, None), list)]:
+                            for st in list(blk):
+                                if isinstance(st, ast.Assign) and len(st.targets) == 1 and U(st.targets[0]) == K:
+                                    blk.remove(st)
+                i += 1
+            for st in block:
+                for f in ('body', 'orelse', 'finalbody'):
+                    sub = getattr(st, f, None)
+                    if isinstance(sub, list) and sub and isinstance(sub[0], ast.stmt):
+                        process(sub)
+        process(node.body)
+        ast.fix_missing_locations(node)
+
+    def _argmin_scan(self, node, s0, s1, s2, rest):
+        if not (isinstance(s0, ast.Assign) and len(s0.targets) == 1 and isinstance(s0.targets[0], ast.Name) and U(s0.value) == 'None'):
+            return None
+        best = s0.targets[0].id
+        if not (isinstance(s1, ast.For) and isinstance(s1.target, ast.Name) and not s1.orelse and len(s1.body) == 1 and isinstance(s1.body[0], ast.If)
+                and not s1.body[0].orelse and len(s1.body[0].body) == 1):
+            return None
+        c = s1.target.id
+        upd = s1.body[0].body[0]
+        if not (isinstance(upd, ast.Assign) and len(upd.targets) == 1 and U(upd.targets[0]) == best and U(upd.value) == c):
+            return None
+        t = s1.body[0].test
+        parts = list(t.values) if isinstance(t, ast.BoolOp) and isinstance(t.op, ast.And) else [t]
+        sel = [p_ for p_ in parts if isinstance(p_, ast.BoolOp) and isinstance(p_.op, ast.Or) and len(p_.values) == 2
+               and U(p_.values[0]).replace(' ', '') == '%sisNone' % best]
+        if len(sel) != 1 or len(parts) < 2:
+            return None
+        cmp_ = sel[0].values[1]
+        if not (isinstance(cmp_, ast.Compare) and len(cmp_.ops) == 1 and isinstance(cmp_.ops[0], (ast.Lt, ast.LtE))):
+            return None
+        l_, r_ = cmp_.left, cmp_.comparators[0]
+        if not (isinstance(l_, ast.Subscript) and isinstance(r_, ast.Subscript) and U(l_.value) == U(r_.value) and isinstance(l_.value, ast.Name)
+                and U(l_.slice) == c and U(r_.slice) == best):
+            return None
+        K = l_.value.id
+        kdefs = [a for a in ast.walk(node) if isinstance(a, ast.Assign) and len(a.targets) == 1 and U(a.targets[0]) == K]
+        if len(kdefs) != 1 or not isinstance(kdefs[0].value, ast.DictComp):
+            return None
+        dc = kdefs[0].value
+        if not (len(dc.generators) == 1 and not dc.generators[0].ifs and isinstance(dc.generators[0].target, ast.Name) and U(dc.key) == dc.generators[0].target.id
+                and U(dc.generators[0].iter) == U(s1.iter) and isinstance(dc.value, ast.Call) and len(dc.value.args) == 1 and not dc.value.keywords
+                and U(dc.value.args[0]) == dc.generators[0].target.id):
+            return None
+        F = dc.value.func
+        if not (isinstance(s2, ast.If) and not s2.orelse and U(s2.test).replace(' ', '') in ('%sisnotNone' % best, '%s!=None' % best)):
+            return None
+        if any(isinstance(n, ast.Name) and n.id == best for st in rest for n in ast.walk(st)):
+            return None
+        if any(isinstance(n, ast.Name) and n.id == best and isinstance(n.ctx, ast.Store) for st in s2.body for n in ast.walk(st)):
+            return None
+        cond = [p_ for p_ in parts if p_ is not sel[0]]
+
+        class R(ast.NodeTransformer):
+            def visit_Subscript(self, n):
+                n = self.generic_visit(n)
+                if isinstance(n.value, ast.Name) and n.value.id == K and isinstance(n.slice, ast.Name) and n.slice.id == c and isinstance(n.ctx, ast.Load):
+                    return ast.copy_location(ast.Call(func=clone(F), args=[ast.Name(id=c, ctx=ast.Load())], keywords=[]), n)
+                return n
+
+            def visit_Name(self, n):
+                if n.id == best:
+                    return ast.copy_location(ast.Name(id=c, ctx=n.ctx), n)
+                return n
+        body = [R().visit(clone(st)) for st in s2.body] + [ast.Break()]
+        src = clone(s1.iter)
+        if isinstance(cmp_.ops[0], ast.LtE):
+            src = ast.Subscript(value=src, slice=ast.Slice(lower=None, upper=None, step=ast.UnaryOp(op=ast.USub(), operand=ast.Constant(value=1))), ctx=ast.Load())
+        it = ast.Call(func=ast.Name(id='sorted', ctx=ast.Load()), args=[src], keywords=[ast.keyword(arg='key', value=clone(F))])
+        test = cond[0] if len(cond) == 1 else ast.BoolOp(op=ast.And(), values=cond)
+        new = ast.For(target=ast.Name(id=c, ctx=ast.Store()), iter=it, body=[ast.If(test=test, body=body, orelse=[])], orelse=[])
+        new = ast.fix_missing_locations(ast.copy_location(new, s1))
+        new._key_table = K
+        return new
+
     def fuse_pipelines(self, node):
         """A chain of list comprehensions over one source - `A = [e1 for t1 in S]; B = [e2 for t2 in A if c]; X = np.array([e3 for t3 in B])`
         - is read as the single loop it describes: `for t1 in S: t2 = e1; if c: t3 = e2; X = np.append(X, e3)`.  Applied to runs of
@@ -1896,6 +1990,7 @@ class Normaliser:
                 ch_._parent = n_
         self.one_shot_iterators(node)
         self.fuse_pipelines(node)
+        self.argmin_scans(node)
         self.inline_deferred_scatter(node)
         self.split_tuple_accumulators(node)
         self.dememoise(node)
